@@ -420,37 +420,44 @@ def run_check(prop, tier, verif_seed, n_runs=None, budget=None, workers=None,
         reported_classes[cls] = reported_classes.get(cls, 0) + 1
         # smallest failing scenario first (by JSON length)
         lst = sorted(lst, key=lambda rv: len(canon(rv[0].get("scenario", {}))))
-        r, v = lst[0]
-        scen = r["scenario"]
-        small, steps = shrink(prop, scen, v["class"], k[1],
-                              budget_s=float(os.environ.get("VERIF_SHRINK_S", 30 if tier == "quick" else 120)))
-        summ, err = execute_scenario(prop, small)
-        v2 = v
-        digest = ""
-        if summ:
-            digest = summ["digest"]
-            for cand in summ["violations"]:
-                if cand["class"] == v["class"]:
-                    v2 = cand
-                    break
-        path = write_replay(prop, small, v2, r["seed"], digest)
-        # replay in a fresh interpreter: must reproduce
-        rc = subprocess.run(
-            [sys.executable, os.path.join(VERIF_DIR, "check"), prop, "--replay", path],
-            capture_output=True, text=True, timeout=600,
-            env=dict(os.environ, VERIF_NO_REEXEC=""))
-        reproduced = rc.returncode == 1 and "VIOLATION property=%s" % prop in rc.stdout
-        out_lines.append("violation class=%s runs=%d seed=%d shrink_steps=%d "
-                         "replay_reproduced=%s\n   %s" % (
-                             v2["class"], len(lst), r["seed"], steps, reproduced,
-                             v2["detail"]))
-        if reproduced:
-            out_lines.append("VIOLATION property=%s replay=%s" % (prop, path))
-            exit_code = 1
-        else:
-            harness.append("violation %s (seed %d) did not reproduce on replay: "
-                           "rc=%s out=%s err=%s" % (v2["class"], r["seed"], rc.returncode,
-                                                   rc.stdout[-400:], rc.stderr[-400:]))
+        # (a violation that does not replay in a fresh interpreter depended on what ran before it
+        # in its worker process - state leaked through the code under test; the next smallest
+        # scenarios of the same class are tried before this is called a harness error)
+        pending_harness = []
+        for r, v in lst[:5]:
+            scen = r["scenario"]
+            small, steps = shrink(prop, scen, v["class"], k[1],
+                                  budget_s=float(os.environ.get("VERIF_SHRINK_S", 30 if tier == "quick" else 120)))
+            summ, err = execute_scenario(prop, small)
+            v2 = v
+            digest = ""
+            if summ:
+                digest = summ["digest"]
+                for cand in summ["violations"]:
+                    if cand["class"] == v["class"]:
+                        v2 = cand
+                        break
+            path = write_replay(prop, small, v2, r["seed"], digest)
+            # replay in a fresh interpreter: must reproduce
+            rc = subprocess.run(
+                [sys.executable, os.path.join(VERIF_DIR, "check"), prop, "--replay", path],
+                capture_output=True, text=True, timeout=600,
+                env=dict(os.environ, VERIF_NO_REEXEC=""))
+            reproduced = rc.returncode == 1 and "VIOLATION property=%s" % prop in rc.stdout
+            out_lines.append("violation class=%s runs=%d seed=%d shrink_steps=%d "
+                             "replay_reproduced=%s\n   %s" % (
+                                 v2["class"], len(lst), r["seed"], steps, reproduced,
+                                 v2["detail"]))
+            if reproduced:
+                out_lines.append("VIOLATION property=%s replay=%s" % (prop, path))
+                exit_code = 1
+                pending_harness = []
+                break
+            else:
+                pending_harness.append("violation %s (seed %d) did not reproduce on replay: "
+                               "rc=%s out=%s err=%s" % (v2["class"], r["seed"], rc.returncode,
+                                                       rc.stdout[-400:], rc.stderr[-400:]))
+        harness.extend(pending_harness[:1])
     agg["coverage"]["known_findings_seen"] = sorted(known_seen)
     agg["violations"] = sum(len(l) for _, l in unknown)
     agg["coverage"]["violation_classes"] = sorted({k[0] for k, _ in unknown})
